@@ -227,3 +227,50 @@ func H_C08_challenge() {
 	}
 	vCover("end")
 }
+
+// Answering a challenge leaves the parsed challenge (and the received buffer it was parsed from) as the server sent it:
+// target name and target info are read, never written, while the AUTHENTICATE message is built.
+func H_C08_challenge_then_answer() {
+	flags := vU32("flags")
+	if vParam("ess") == 1 {
+		flags |= NTLMSSP_NEGOTIATE_EXTENDED_SESSIONSECURITY
+	} else {
+		flags &^= NTLMSSP_NEGOTIATE_EXTENDED_SESSIONSECURITY
+	}
+	server := vBytes("server", 8)
+	tname := vBytes("tname", vParam("tnlen"))
+	val := vBytes("avval", 2)
+	ti := []byte{2, 0, 2, 0, val[0], val[1], 0, 0, 0, 0}
+	tnOff, tiOff := 56, 56+len(tname)
+	if vParam("layout") == 1 {
+		tiOff, tnOff = 56, 56+len(ti)
+	}
+	msg := append([]byte{}, []byte("NTLMSSP\x00")...)
+	msg = append(msg, 2, 0, 0, 0)
+	msg = append(msg, byte(len(tname)), 0, byte(len(tname)), 0, byte(tnOff), 0, 0, 0)
+	msg = append(msg, byte(flags), byte(flags>>8), byte(flags>>16), byte(flags>>24))
+	msg = append(msg, server...)
+	msg = append(msg, 0, 0, 0, 0, 0, 0, 0, 0)
+	msg = append(msg, byte(len(ti)), 0, byte(len(ti)), 0, byte(tiOff), 0, 0, 0)
+	msg = append(msg, 0, 0, 0, 0, 0, 0, 0, 0)
+	if vParam("layout") == 1 {
+		msg = append(msg, ti...)
+		msg = append(msg, tname...)
+	} else {
+		msg = append(msg, tname...)
+		msg = append(msg, ti...)
+	}
+	msg = append(msg, vBytes("trailing", vParam("trail"))...) // bytes after the last payload field belong to the caller too
+	received := append([]byte{}, msg...)
+	c, err := ParseChallengeMessage(msg)
+	vCheck(err == nil, "answer/challenge-parses")
+	if err != nil {
+		return
+	}
+	_, err = CreateAuthenticateMessage(c, "user", "pw", "DOM", "WS")
+	vCheck(err == nil, "answer/authenticate-ok")
+	vCheck(vBytesEq(c.TargetName, tname), "answer/parsed-target-name-unchanged")
+	vCheck(vBytesEq(c.TargetInfo, ti), "answer/parsed-target-info-unchanged")
+	vCheck(vBytesEq(msg, received), "answer/received-buffer-unchanged")
+	vCover("end")
+}
